@@ -37,12 +37,12 @@ def build_registry(modnames):
 
 
 def _verify_worker(args):
-    modnames, target, timeout_ms, use_cvc5 = args
+    modnames, target, timeout_ms, use_cvc5, sample_paths, cross = args
     t0 = time.time()
     try:
         reg = build_registry(modnames)
         c = reg.contracts[target]
-        rep = C.verify(reg, c, timeout_ms=timeout_ms, use_cvc5=use_cvc5)
+        rep = C.verify(reg, c, timeout_ms=timeout_ms, use_cvc5=use_cvc5, sample_paths=sample_paths, cross_check_cvc5=cross)
         insts = [
             dict(name=o.name, verdict=o.verdict, backend=o.backend, seconds=round(o.seconds, 4), model=_jsonable(o.model), detail=o.detail, line=o.line, kind=o.kind, path=o.path)
             for o in rep.instances
@@ -58,6 +58,7 @@ def _verify_worker(args):
             axioms=rep.axioms,
             wall=time.time() - t0,
             bounded=c.bounded,
+            path_samples=_jsonable(rep.path_samples),
         )
     except Exception as e:
         return dict(target=target, error="worker crashed: " + traceback.format_exc(), paths=0, instances=[], extracted=None, solver_seconds=0, covered={}, axioms=[], wall=time.time() - t0, bounded=False)
@@ -113,6 +114,36 @@ def replay(modnames, target, inputs, clause, timeout=120):
     return ("violation", r) if r else ("holds", None)
 
 
+def _replay_batch_worker(modnames, target, samples, q):
+    out = []
+    try:
+        reg = build_registry(modnames)
+        c = reg.contracts[target]
+        for inp in samples:
+            try:
+                r = c.replay(inp, "*")
+                out.append(("violation", r) if r else ("holds", None))
+            except BaseException as e:
+                out.append(("driver-error", f"{type(e).__name__}: {e}"))
+    finally:
+        q.put(out)
+
+
+def replay_batch(modnames, target, samples, timeout=120):
+    ctx = mp.get_context("fork")
+    q = ctx.Queue()
+    p = ctx.Process(target=_replay_batch_worker, args=(modnames, target, samples, q))
+    p.start()
+    try:
+        out = q.get(timeout=timeout)
+    except Exception:
+        out = [("timeout", None)] * len(samples)
+    p.join(5)
+    if p.is_alive():
+        p.kill()
+    return out
+
+
 def load_known():
     path = os.path.join(ROOT, "KNOWN_FINDINGS.jsonl")
     out = []
@@ -153,7 +184,8 @@ def run_property(pid, tier, seed, update_lock=False, only=None, verbose=False):
     if not targets:
         print(f"checker failure: no contracts registered for {pid}")
         return 3
-    jobs = [(modnames, t, timeout_ms, True) for t in targets]
+    sample_paths = 2 if tier == "quick" else 40
+    jobs = [(modnames, t, timeout_ms, True, sample_paths, tier != "quick") for t in targets]
     nproc = min(16, len(jobs), os.cpu_count() or 4)
     ctx = mp.get_context("fork")
     with ctx.Pool(nproc) as pool:
@@ -193,7 +225,7 @@ def run_property(pid, tier, seed, update_lock=False, only=None, verbose=False):
         outputs = []
         for o in e["instances"]:
             if o["verdict"] in ("refuted", "candidate"):
-                solver_says_sat = solver_says_sat or o["verdict"] == "refuted" or o["verdict"] == "candidate"
+                solver_says_sat = solver_says_sat or o["verdict"] == "refuted"
                 if c.replay is None or o["model"] is None or tried >= 6:
                     continue
                 tried += 1
@@ -231,6 +263,20 @@ def run_property(pid, tier, seed, update_lock=False, only=None, verbose=False):
                 e["verdict"] = "violated-no-input"
             else:
                 undecided.append(name)
+    # ---- cross-check of engine + contract + driver against the real code: concrete inputs drawn from the
+    # path conditions of fully proved contracts must NOT make the replay driver report a violation
+    xcheck = dict(inputs=0, disagreements=[])
+    for r in reports:
+        if r["error"] or not r.get("path_samples"):
+            continue
+        names = {o["name"] for o in r["instances"]}
+        if any(obl[n]["verdict"] != "proved" for n in names):
+            continue
+        res = replay_batch(modnames, r["target"], r["path_samples"])
+        xcheck["inputs"] += len(r["path_samples"])
+        for inp, (kind, text) in zip(r["path_samples"], res):
+            if kind in ("violation",):
+                xcheck["disagreements"].append(dict(target=r["target"], inputs=inp, text=text))
     # known findings that no longer reproduce are simply not printed (a fixed defect is fine)
 
     # vacuity guards
@@ -281,6 +327,7 @@ def run_property(pid, tier, seed, update_lock=False, only=None, verbose=False):
             bounded_standins=spec.get("bounded", []),
             not_reached=spec.get("not_reached", []),
             known_findings=[k["what"] for k, _ in known_hits],
+            cross_check=dict(concrete_inputs_replayed_on_real_code=xcheck["inputs"], disagreements=len(xcheck["disagreements"])),
             undecided=undecided,
             samples=samples,
             explanation=spec.get("explanation", ""),
@@ -310,6 +357,8 @@ def run_property(pid, tier, seed, update_lock=False, only=None, verbose=False):
             print(f"VIOLATION property={pid} replay={rel}")
     for r in errors:
         print(f"CHECKER-ERROR {r['target']}: {r['error']}")
+    for d in xcheck["disagreements"]:
+        print(f"CHECKER-ERROR cross-check: all obligations of {d['target']} are proved but the replay driver reports on inputs {json.dumps(d['inputs'])[:300]}: {d['text']}")
     for v in vac:
         print(f"VACUITY {v}")
     for u in undecided:
@@ -320,7 +369,7 @@ def run_property(pid, tier, seed, update_lock=False, only=None, verbose=False):
         lock = []
     if violations:
         return 1
-    if errors or vac:
+    if errors or vac or xcheck["disagreements"]:
         return 3
     if undecided:
         return 2
